@@ -175,7 +175,15 @@ class Check(PropertyCheck):
         # the very first character of the input is special to some readers: byte-order mark, zero-width space, NUL
         texts += [self.rng.choice(["\ufeff", "\u200b", "\0", "\ufeff\n", " \ufeff"]) + gen.zoo(self.rng) for _ in range(max(4, n // 10))]
         texts += ["\ufeff+------+\n| box  |---->\n+------+\n"]
-        return self.oracle(texts)
+        # siblings back to back: the same cells, other content inside a quoted label or another legend declaration
+        # (one process converts them one after the other through every entry point)
+        out = []
+        for t in texts:
+            out.append(t)
+            sib = gen.sibling(t, self.rng)
+            if sib is not None:
+                out.append(sib)
+        return self.oracle(out)
 
     def oracle_on_texts(self, texts):
         return self.oracle(texts)
